@@ -243,6 +243,52 @@ def d3_seed(ctx, obs):
     ctx.check(rule, key + '-only-when-missing', bool(g) and unparse(g[0][0][0]) == 'random_numbers is None' and g[0][0][1], 'supplied random numbers take precedence', 'generation guard differs')
 
 
+def d5_effects(ctx, obs):
+    """export / import never write into their arguments (the caller's sample arrays are reused for further imports): effect analysis
+    with may-alias (views obtained by asarray / slicing count as the argument itself)"""
+    from ..effects import Analyzer, significant
+    rule = 'C13-D4'
+    an = Analyzer(ctx.repo)
+    n = 0
+    for q in ('import_jackknife', 'import_bootstrap', 'Obs.export_jackknife', 'Obs.export_bootstrap'):
+        sm = an.summary(('obs', q))
+        n += 1
+        bad = [e for e in sm.events if significant(e) and e.ref.root != 'self']
+        f = obs.func(q)
+        # numpy views: x = np.asarray(param)[...] ; x *= ... / x[...] = ...  writes through to the argument
+        params = {a.arg for a in f.args.args} - {'self'}
+        views = {}
+        for st in statements(f):
+            if isinstance(st, ast.Assign) and len(st.targets) == 1 and isinstance(st.targets[0], ast.Name):
+                v = st.value
+                base = v
+                while isinstance(base, (ast.Subscript, ast.Attribute)):
+                    base = base.value
+                if isinstance(base, ast.Call) and call_name(base) in ('asarray', 'asanyarray', 'atleast_1d', 'ravel', 'reshape', 'view') and base.args and isinstance(base.args[0], ast.Name) and base.args[0].id in params:
+                    views[st.targets[0].id] = base.args[0].id
+                elif isinstance(base, ast.Name) and base.id in params and isinstance(v, ast.Subscript):
+                    views[st.targets[0].id] = base.id
+        inplace = []
+        for st in statements(f):
+            if isinstance(st, ast.AugAssign) and isinstance(st.target, ast.Name) and st.target.id in views:
+                inplace.append((st, views[st.target.id]))
+            if isinstance(st, ast.AugAssign) and isinstance(st.target, ast.Name) and st.target.id in params:
+                inplace.append((st, st.target.id))
+            if isinstance(st, (ast.Assign, ast.AugAssign)):
+                t = st.targets[0] if isinstance(st, ast.Assign) else st.target
+                if isinstance(t, ast.Subscript) and isinstance(t.value, ast.Name) and (t.value.id in views or t.value.id in params):
+                    inplace.append((st, views.get(t.value.id, t.value.id)))
+        if bad or inplace:
+            for e in bad[:2]:
+                ctx.violated(rule, 'obs.py:%s#mutates[%s]' % (q, e.ref.root), '%s mutates its argument %r (%s)' % (q, e.ref, e.kind), obs.loc(e.node))
+            for st, pname in inplace[:2]:
+                ctx.violated(rule, 'obs.py:%s#writes-through-view[%s]' % (q, pname), '`%s` writes in place into (a view of) the argument `%s`: the caller\'s samples are overwritten, a second import of the same array gives a different observable' % (
+                    unparse(st), pname), obs.loc(st))
+        else:
+            ctx.holds(rule, 'obs.py:%s#effects' % q, 'no argument is written')
+    ctx.floor('resampling functions with effect summary', n, 4)
+
+
 def run(ctx):
     ctx.rule('C13-D1', 'jackknife: import is the algebraic inverse of export (symbolic n)')
     ctx.rule('C13-D2', 'bootstrap projector agreement')
@@ -253,12 +299,14 @@ def run(ctx):
     ctx.guarded('C13-D2', 'obs.py@bootstrap', d2_bootstrap, ctx, obs)
     ctx.guarded('C13-D3', 'obs.py@seed', d3_seed, ctx, obs)
     from .. import samplerule
-    ctx.rule('C13-D4', 'exported data = fluctuation + replica mean of the same chain')
+    ctx.rule('C13-D4', 'exported data = fluctuation + replica mean of the same chain; arguments are never written (views included)')
     ctx.guarded('C13-D4', 'obs.py@samples', samplerule.check, ctx, 'C13-D4', obs, ('Obs.export_jackknife', 'Obs.export_bootstrap'))
+    ctx.guarded('C13-D4', 'obs.py@effects', d5_effects, ctx, obs)
     ctx.floor('C13 obligations', len(ctx.obs), 20)
 
 
 SELFTEST = [
+    ('import-writes-through-view', 'pyerrors/obs.py', "    samples = jacks[1:] @ prj\n", "    samples = jacks[1:] @ prj\n    rest = np.asarray(jacks)[1:]\n    rest -= mean_shift if False else 0\n", None),
     ('jack-n-over-n-1', 'pyerrors/obs.py', "tmp_jacks[1:] = (n * mean - full_data) / (n - 1)", "tmp_jacks[1:] = (n * mean - full_data) / n", 'C13-D1'),
     ('jack-projector', 'pyerrors/obs.py', "prj = (np.ones((length, length)) - (length - 1) * np.identity(length))", "prj = (np.ones((length, length)) - length * np.identity(length))", 'C13-D1'),
     ('jack-sum-includes-mean', 'pyerrors/obs.py', "    prj = (np.ones((length, length)) - (length - 1) * np.identity(length))\n    samples = jacks[1:] @ prj", "    samples = np.sum(jacks) - (length - 1) * jacks[1:]", 'C13-D1'),
